@@ -36,7 +36,7 @@ def bounds(tier):
             "sparents": [-1, 0, 1, 2, 3, 4],             # parents of the template-argument matrix (-1 = dynamic, sizes 0..nmax)
             "sargs": list(range(-1, 6)),                 # O, C in -1..5
             "nmelems": [0, 1],                           # element types of the non-member template forms
-            "builds": [("g++", "c++14", "-O0")],
+            "builds": [("g++", "c++14", "-O0", "full")],
         }
     return {
         "nmax": 16,
@@ -46,9 +46,10 @@ def bounds(tier):
         "sparents": [-1, 0, 1, 2, 3, 4, 5, 6],
         "sargs": list(range(-1, 9)),
         "nmelems": [0, 1, 2, 3, 4, 5],
-        # the first build is the primary one (always run); the others re-execute the same space with another
-        # front end / standard library mode / optimiser and are dropped (with a cap) when time runs out
-        "builds": [("g++", "c++14", "-O0"), ("clang++", "c++14", "-O0"), ("g++", "c++20", "-O2"), ("clang++", "c++20", "-O1")],
+        # the first build is the primary one (always run); the others re-execute the space ("full") or the quick tier's
+        # sub-space ("small": optimised builds of the full matrix take > 5 CPU-minutes per binary) with another front end /
+        # standard / optimiser and are dropped (with a cap) when time runs out
+        "builds": [("g++", "c++14", "-O0", "full"), ("clang++", "c++14", "-O0", "full"), ("g++", "c++20", "-O2", "small"), ("clang++", "c++20", "-O1", "small")],
     }
 
 
@@ -198,11 +199,11 @@ def pick_samples(samples):
 
 
 def tag_of(mode, part, build):
-    return "c16-%s-p%d-%s-%s%s" % (mode, part, build[0].replace("+", "x"), build[1].replace("+", "x"), build[2])
+    return "c16-%s-p%d-%s-%s%s-%s" % (mode, part, build[0].replace("+", "x"), build[1].replace("+", "x"), build[2], build[3])
 
 
 def build_one(gendir, mode, part, build):
-    cc, std, opt = build
+    cc, std, opt = build[:3]
     return vlib.compile_cxx(SRC, "c16-%s-p%d" % (mode, part), std=std, opt=opt, san="asan", compiler=cc,
                             flags=["-I" + gendir], defines=[MODES[mode], "C16_PART=%d" % part, "_GLIBCXX_ASSERTIONS"])
 
@@ -210,30 +211,37 @@ def build_one(gendir, mode, part, build):
 _PREP = {}
 
 
-def prepare(tier, compilers=None):
-    """probe + generate once per compiler family: {cc: (gendir, counts, newly_well_formed, n_probes)}"""
-    b = bounds(tier)
+def scope_bounds(tier, scope):
+    return bounds(tier) if scope == "full" else bounds("quick")
+
+
+def prepare(tier, builds):
+    """probe + generate once per (scope, compiler family): {(scope, cc): (gendir, counts, newly_well_formed, n_probes, bounds)}"""
     prep = {}
-    for cc in sorted(set(x[0] for x in b["builds"]) if compilers is None else compilers):
-        if (tier, cc) not in _PREP:
+    for build in builds:
+        cc, scope = build[0], build[3]
+        k = (tier if scope == "full" else "quick", cc)
+        if k not in _PREP:
+            b = scope_bounds(tier, scope)
             newly, n_probes = probe_ill_formed(b, cc)
             gendir, counts = generate(b, newly, cc)
-            _PREP[(tier, cc)] = (gendir, counts, newly, n_probes)
-        prep[cc] = _PREP[(tier, cc)]
-    return b, prep
+            _PREP[k] = (gendir, counts, newly, n_probes, b)
+        prep[(scope, cc)] = _PREP[k]
+    return prep
 
 
 def run(ctx):
-    b, prep = prepare(ctx.tier)
-    gendir0, counts, newly, n_probes = prep[b["builds"][0][0]]
-    newly = [(cc, x) for cc in sorted(prep) for x in prep[cc][2]]
-    parts = sorted(set(b["elems"]) | set(b["selems"]))
+    b = bounds(ctx.tier)
+    prep = prepare(ctx.tier, b["builds"])
+    gendir0, counts, _, n_probes, _ = prep[(b["builds"][0][3], b["builds"][0][0])]
+    newly = [(k, x) for k in sorted(prep) for x in prep[k][2]]
     keydir = os.path.join(GENROOT, "keys-%d" % os.getpid())
     os.makedirs(keydir, exist_ok=True)
     jobs = []
     for bi, build in enumerate(b["builds"]):
+        bb = prep[(build[3], build[0])][4]
         for mode in ("checked", "nocheck"):
-            for part in parts:
+            for part in sorted(set(bb["elems"]) | set(bb["selems"])):
                 jobs.append((bi, build, mode, part))
     skipped = []
     samples = {}
@@ -244,10 +252,11 @@ def run(ctx):
         if bi > 0 and (ctx.time_left() < 300 or time.time() - ctx.t0 > BUDGET_S):
             skipped.append(tag_of(mode, part, build))
             return None
-        binary = build_one(prep[build[0]][0], mode, part, build)
+        gendir, _, _, _, bb = prep[(build[3], build[0])]
+        binary = build_one(gendir, mode, part, build)
         tag = tag_of(mode, part, build)
         kf = os.path.join(keydir, tag + ".keys")
-        recs = ctx.run_harness(binary, ["--nmax", str(b["nmax"]), "--keys-out", kf], tag=tag, build=list(build))
+        recs = ctx.run_harness(binary, ["--nmax", str(bb["nmax"]), "--keys-out", kf], tag=tag, build=list(build))
         if bi == 0:
             samples[(mode, part)] = [r["v"] for r in recs if r.get("t") == "sample"]
         return kf
@@ -280,7 +289,7 @@ def run(ctx):
     ctx.stats["builds"] = len(b["builds"]) * 2
     if newly:
         ctx.note("instantiations the manifest expected to be ill-formed compile on this tree and were explored: %s" % newly[:10])
-    ctx.note("element types: %s; compilers/standards: %s" % ([ELEMS[i] for i in parts], b["builds"]))
+    ctx.note("element types: %s; builds (compiler, standard, optimisation, scope): %s" % ([ELEMS[i] for i in sorted(set(b["elems"]) | set(b["selems"]))], b["builds"]))
     ctx.rule = (
         "request = (element type, parent kind, parent size n, memory layout, operation, arguments), executed on the real xtl::span in two builds "
         "(TCB_SPAN_THROW_ON_CONTRACT_VIOLATION: all requests; TCB_SPAN_NO_CONTRACT_CHECKING: only requests valid by the oracle). "
@@ -311,8 +320,10 @@ def replay(ctx, rec):
     tag = rec.get("harness") or ""
     mode = "nocheck" if "-nocheck-" in tag else "checked"
     build = tuple(rec["build"]) if rec.get("build") else bounds(tier)["builds"][0]
-    b, prep = prepare(tier, [build[0]])
-    gendir = prep[build[0]][0]
+    if len(build) < 4:
+        build = tuple(build) + ("full",)
+    prep = prepare(tier, [build])
+    gendir = prep[(build[3], build[0])][0]
     part = None
     args = list(rec["args"])
     if "--only" in args:
